@@ -7,19 +7,30 @@ import O1722.Spec.Formats
 import O1722.Model.Utils
 import O1722.Model.Can
 import O1722.Model.Vss
+import O1722.Model.Tunnel
 
 namespace O1722.Driver
 open O1722 O1722.Spec
 
 structure State where
   bufs : List (String × Array UInt8)
+  /-- example CAN tunnel: configuration, frames per packet, queued frames (with their
+      timestamps), packets produced, sequence counters, virtual clock -/
+  tun : TunnelCfg := ⟨false, false, false⟩
+  count : Nat := 1
+  frames : List (Nat × CanFrame) := []
+  pkts : List (List Byte) := []
+  seq : Nat := 0
+  udpSeq : Nat := 0
+  clock : Nat := 1000
+  dgrams : List (List Byte) := []
 
-def State.empty : State := ⟨[]⟩
+def State.empty : State := { bufs := [] }
 
 def State.get (s : State) (id : String) : Option (Array UInt8) := s.bufs.lookup id
 
 def State.put (s : State) (id : String) (a : Array UInt8) : State :=
-  ⟨(id, a) :: s.bufs.filter (fun p => p.1 != id)⟩
+  { s with bufs := (id, a) :: s.bufs.filter (fun p => p.1 != id) }
 
 def hexDigit (c : Char) : Option Nat :=
   if '0' ≤ c ∧ c ≤ '9' then some (c.toNat - '0'.toNat)
@@ -206,6 +217,29 @@ def step (st : State) (line : String) : State × String :=
     match st.get id, nat? off with
     | some a, some off => (st, s!"v {canPayloadLength Spec.can (memOf a) off}")
     | _, _ => (st, "bad-op")
+  -- example CAN tunnel: MODEL of acf-can-talker.c / acf-can-listener.c
+  | ["tun", t, u, f, c] =>
+    match nat? c with
+    | some c => ({ st with tun := ⟨t == "t", u == "u", f == "f"⟩, count := c }, "")
+    | none => (st, "bad-op")
+  | ["frame", cid, len, flags, hex] =>
+    match nat? cid, nat? len, nat? flags, parseHex hex with
+    | some cid, some len, some flags, some d =>
+      let arr := if st.tun.fd then 64 else 8
+      let data := (bytesOf d ++ List.replicate arr (0 : Byte)).take arr
+      -- the k-th clock_gettime call of the run returns virtual time 1000 + 7k (ms)
+      let v := st.clock
+      let ts := (1700000000 + v / 1000) * 1000000000 + (v % 1000) * 1000000
+      ({ st with frames := st.frames ++ [(ts, ⟨cid % 2 ^ 32, len % 256, flags % 256, data⟩)], clock := v + 7 }, "")
+    | _, _, _, _ => (st, "bad-op")
+  | ["talk"] =>
+    let r := talkStream st.tun st.count (fun _ _ => 0xAA) (st.frames.length + 1) st.udpSeq st.seq st.frames
+    let pk := r.1
+    ({ st with pkts := st.pkts ++ pk, frames := [], seq := st.seq + pk.length, udpSeq := st.udpSeq + pk.length },
+      "\n".intercalate (pk.map (fun p => "pkt " ++ hexOfBytes p)))
+  | ["listen"] =>
+    let outs := st.pkts.flatMap (fun p => listenPacket st.tun (recvBuf 0xAA p))
+    ({ st with pkts := [] }, "\n".intercalate (outs.map (fun o => s!"out {o.canId} {o.len} {o.flags} " ++ hexOfBytes o.data)))
   -- VSS: the hand MODEL of Vss.c (host order little, as the harness host)
   | ["vss_pad", id, off, len] =>
     match st.get id, nat? off, nat? len with
